@@ -435,3 +435,97 @@ func ZZC04Forward() {
 }
 
 func init() { vn.Register("process.ZZC04Forward", ZZC04Forward) }
+
+// ZZC04Control: control messages at a receiving process, and droppable forwards.
+//  * GC at a receiver: the drop is extended to EVERY channel the dropped process still holds (one
+//    droppable forward per free channel — by channel identity, whatever the channels are called),
+//    nothing is sent on its provider, the process terminates;
+//  * FWD(ρ) at a receiver: it continues, with the same body, as the provider of ρ;
+//  * a positive droppable forward consumes the message it was waiting for and extends the drop to
+//    every channel inside it.
+func ZZC04Control() {
+	w := zzNewStepWorld(NORMAL_ASYNC)
+	self := Name{IsSelf: true}
+	neg := types.NEGATIVE
+	pos := types.POSITIVE
+	ids := []string{"a", "b", "c"}
+	take := func(c chan Message) (Message, bool) {
+		select {
+		case m := <-c:
+			return m, true
+		default:
+			return Message{}, false
+		}
+	}
+	// two held channels with symbolic spellings (possibly the same spelling)
+	u, v := w.ch[0], w.ch[1]
+	u.Ident = vn.StrOf(vn.Int(0, 2), ids...)
+	v.Ident = vn.StrOf(vn.Int(0, 2), ids...)
+	u.ExplicitPolarity, v.ExplicitPolarity = &neg, &neg
+	kind := vn.Pick(3)
+	switch kind {
+	case 0: // GC at a receiver
+		q := NewSend(self, u, v)
+		var body Form
+		switch vn.Pick(3) {
+		case 0:
+			body = NewReceive(Name{Ident: "x"}, Name{Ident: "y"}, self, NewWait(Name{Ident: "x"}, q))
+		case 1:
+			body = NewCase(self, []*BranchForm{NewBranch(Label{L: "l"}, Name{Ident: "x"}, q)})
+		default:
+			body = NewShift(Name{Ident: "x"}, self, q)
+		}
+		proc := NewProcess(body, []Name{w.pi}, nil, LINEAR, zzPos())
+		w.pi.Channel <- Message{Rule: GC}
+		failed := vn.Try(func() { body.Transition(proc, w.re) })
+		vn.Drain()
+		m1, ok1 := take(u.Channel)
+		m2, ok2 := take(v.Channel)
+		_, more1 := take(u.Channel)
+		_, more2 := take(v.Channel)
+		_, onSelf := take(w.pi.Channel)
+		all := !failed && ok1 && ok2 && m1.Rule == GC && m2.Rule == GC && !more1 && !more2 && !onSelf
+		vn.Assert("C04.gc-request-extends-to-every-held-channel", all)
+		vn.Assert("C02.drop-reaches-every-channel-the-dropped-process-holds", all)
+	case 1: // FWD at a receiver
+		q := &zzTProbe{}
+		body := NewReceive(Name{Ident: "x"}, Name{Ident: "y"}, self, q)
+		proc := NewProcess(body, []Name{w.pi}, nil, LINEAR, zzPos())
+		np := w.re.CreateFreshChannel("np")
+		w.pi.Channel <- Message{Rule: FWD, Providers: []Name{np}}
+		np.Channel <- Message{Rule: RCV, Channel1: u, Channel2: v}
+		failed := vn.Try(func() { body.Transition(proc, w.re) })
+		vn.Drain()
+		ok := !failed && q.ran == 1 && len(q.provs) == 1 && q.provs[0].Channel == v.Channel && len(q.substs) == 2 && q.substs[0][1].Channel == u.Channel
+		vn.Assert("C04.forward-request-moves-the-receiver-to-the-new-provider", ok)
+	default: // positive droppable forward
+		c := w.ch[2]
+		c.ExplicitPolarity = &pos
+		rule := []Rule{SND, SEL, CST, CLS}[vn.Pick(4)]
+		in := Message{Rule: rule, Label: Label{L: "l"}}
+		if rule != CLS {
+			in.Channel1 = u
+		}
+		if rule == SND { // only the pair message carries two channels
+			in.Channel2 = v
+		}
+		c.Channel <- in
+		body := NewDroppableForward(Name{IsSelf: true, Ident: c.Ident, ExplicitPolarity: &pos}, c)
+		proc := NewProcess(body, []Name{w.pi}, nil, LINEAR, zzPos())
+		failed := vn.Try(func() { body.Transition(proc, w.re) })
+		vn.Drain()
+		_, left := take(c.Channel)
+		m1, ok1 := take(u.Channel)
+		m2, ok2 := take(v.Channel)
+		_, onSelf := take(w.pi.Channel)
+		wantU := rule != CLS
+		wantV := rule == SND
+		okU := (wantU && ok1 && m1.Rule == GC) || (!wantU && !ok1)
+		okV := (wantV && ok2 && m2.Rule == GC) || (!wantV && !ok2)
+		all := !failed && !left && okU && okV && !onSelf
+		vn.Assert("C04.droppable-forward-drops-the-message-and-its-channels", all)
+		vn.Assert("C02.dropping-a-message-reaches-the-channels-inside-it", all)
+	}
+}
+
+func init() { vn.Register("process.ZZC04Control", ZZC04Control) }
